@@ -119,7 +119,7 @@ class NumpyProxy(object):
 class Recorder(object):
     """Replaces random / numpy / helper functions in deap.tools.emo by logging versions."""
     NAMES = ["random", "numpy", "_randomizedSelect", "sortNondominated", "sortLogNondominated",
-             "associate_to_niche", "niching"]
+             "associate_to_niche", "niching", "find_extreme_points", "find_intercepts"]
 
     def __init__(self, emo, seed):
         self.emo = emo
@@ -130,6 +130,8 @@ class Recorder(object):
         self.fronts = []
         self.assoc = []
         self.nich = []
+        self.extreme = []
+        self.icpt = []
         self._depth = 0
 
     def __enter__(self):
@@ -177,6 +179,23 @@ class Recorder(object):
             self.nich.append(rec)
             return r
 
+        def fext(fitnesses, best_point, extreme_points=None):
+            r = saved["find_extreme_points"](fitnesses, best_point, extreme_points)
+            self.extreme.append({"fits": numpy.array(fitnesses, dtype=float), "best": numpy.array(best_point, dtype=float).reshape(-1),
+                                 "prev": None if extreme_points is None else numpy.array(extreme_points, dtype=float),
+                                 "result": numpy.array(r, dtype=float)})
+            return r
+
+        def ficpt(extreme_points, best_point, current_worst, front_worst):
+            r = saved["find_intercepts"](extreme_points, best_point, current_worst, front_worst)
+            self.icpt.append({"best": numpy.array(best_point, dtype=float).reshape(-1),
+                              "worst": numpy.array(current_worst, dtype=float).reshape(-1),
+                              "front_worst": numpy.array(front_worst, dtype=float).reshape(-1),
+                              "result": numpy.array(r, dtype=float).reshape(-1)})
+            return r
+
+        emo.find_extreme_points = fext
+        emo.find_intercepts = ficpt
         emo._randomizedSelect = rsel
         emo.sortNondominated = mk_sort("sortNondominated")
         emo.sortLogNondominated = mk_sort("sortLogNondominated")
@@ -458,6 +477,13 @@ def main(run):
         fronts = [[idx[id(x)] for x in fr] for fr in rec_fronts]
         case["fronts"] = fronts
         flat = [i for fr in fronts for i in fr]
+        # the hypothesis of the front-priority theorem, checked on what the sorter returned inside this call
+        for r, fr in enumerate(fronts):
+            if sorted(fr) != [i for i in range(n) if dep[i] == r]:
+                run.oracle_violation("selNSGA3: the fronts it sorted are not the Pareto fronts of the population (front %d)" % r, case)
+                break
+        if not fronts or len(flat) < k or len(flat) - len(fronts[-1]) >= k:
+            run.oracle_violation("selNSGA3: the sorted fronts do not satisfy |fronts[:-1]| < k <= |fronts|", case)
         # association: argmin of the perpendicular distance in the normalised space, recomputed exactly
         a = rec_assoc
         finite = bool(numpy.all(numpy.isfinite(a["fits"])) and numpy.all(numpy.isfinite(a["best"])) and
@@ -507,7 +533,7 @@ def main(run):
         # correspondence terms
         nr = rec_nich
         lastidx = {id(x): i for i, x in enumerate(nr["inds"])}
-        nsel = [lastidx.get(id(x), 10 ** 6) for x in nr["selected"]]
+        nsel = [lastidx.get(id(x), 4999) for x in nr["selected"]]
         add("niching", "CNiching %s %s %s %s %s %s %s" % (cnat(nr["k"]), cnatl(nr["niches"]), cql(nr["dist"]), cnatl(nr["counts0"]),
                                                             cnatll(nr["codes"]), cnatl(nsel), cnatl(nr["counts1"])), case)
         if finite:
@@ -531,6 +557,7 @@ def main(run):
         ncalls = memory_calls or 1
         selector = tools.selNSGA3WithMemory(refs, nd) if memory_calls else None
         mem_calls, mem_obs = [], []
+        mem_prev = (None, None)
         for call in range(ncalls):
             n = rng.choice([1, 2, 3, 4, 5, 6, 8, 10, 12, 16]) if rng.random() < 0.8 else rng.randint(1, 24)
             style, vals = gen_values(rng, n, M)
@@ -552,6 +579,24 @@ def main(run):
                 run.broken.append({"kind": "harness_recording", "where": ["harness/c07.py"], "log": "helper calls not recorded once"})
                 return
             check_nsga3_call(pop, k, res[1], rec.fronts[0], rec.assoc[0], rec.nich[0], case, len(refs))
+            if len(rec.extreme) == 1 and len(rec.icpt) == 1:
+                ex, ic = rec.extreme[0], rec.icpt[0]
+                ints = lambda a: [int(x) for x in a]
+                rows = lambda m: [ints(r) for r in m]
+                fitrows = rows(rec.assoc[0]["fits"])
+                pb, pw = (mem_prev if selector is not None else (None, None))
+                # oracle: best / worst / front-worst are the coordinatewise extremes
+                seen = fitrows + ([pb] if pb is not None else [])
+                seenw = fitrows + ([pw] if pw is not None else [])
+                if (ints(ic["best"]) != [min(c) for c in zip(*seen)] or ints(ic["worst"]) != [max(c) for c in zip(*seenw)]
+                        or ints(ic["front_worst"]) != [max(c) for c in zip(*fitrows)]):
+                    run.oracle_violation("selNSGA3: best/worst/front-worst point is not the coordinatewise extreme", case)
+                add("points", "CPoints %s %s %s %s %s %s" % (copt(pb, czl), copt(pw, czl), czll(fitrows), czl(ints(ic["best"])),
+                                                            czl(ints(ic["worst"])), czl(ints(ic["front_worst"]))), case)
+                add("points", "CExtreme %s %s %s %s" % (czll(rows(ex["fits"])), czl(ints(ex["best"])),
+                                                        copt(None if ex["prev"] is None else rows(ex["prev"]), czll), czll(rows(ex["result"]))), case)
+            if selector is not None:
+                mem_prev = ([int(x) for x in selector.best_point.reshape(-1)], [int(x) for x in selector.worst_point.reshape(-1)])
             if selector is not None:
                 fits = rec.assoc[0]["fits"]
                 mem_calls.append([[int(x) for x in row] for row in fits])
@@ -576,8 +621,20 @@ def main(run):
 
     import time
     run.extra_cov["timing"] = {"generate_s": round(time.time() - run.t0, 1)}
+    run.extra_cov["case_kinds"] = {g: len(groups[g][0]) for g in sorted(groups)}
+    # one sharded evaluation for everything; the expensive exact cases are spread evenly over the shards
+    terms, cases = [], []
     for g in sorted(groups):
-        terms, cases = groups[g]
-        t1 = time.time()
-        run.correspond(g, "C07", terms, cases, shard=4 if g == "exact" else 150 if g == "assocf" else 400)
-        run.extra_cov["timing"][g] = round(time.time() - t1, 1)
+        if g != "exact":
+            terms += groups[g][0]
+            cases += [dict(c, group=g) for c in groups[g][1]]
+    ex_terms, ex_cases = groups.get("exact", ([], []))
+    if ex_terms:
+        step = max(1, len(terms) // len(ex_terms))
+        for n, (t, c) in enumerate(zip(ex_terms, ex_cases)):
+            pos = min(len(terms), n * (step + 1))
+            terms.insert(pos, t)
+            cases.insert(pos, dict(c, group="exact"))
+    t1 = time.time()
+    run.correspond("all", "C07", terms, cases, shard=run.scale(60, 120))
+    run.extra_cov["timing"]["coq_s"] = round(time.time() - t1, 1)
